@@ -166,6 +166,27 @@ def _defines_closures(func):
     return got[1]
 
 
+_FREE = {}
+
+
+def free_names(func):
+    """Names a nested function / lambda reads or writes that are not its own locals."""
+    got = _FREE.get(id(func))
+    if got is None:
+        used = set()
+        body = func.body if isinstance(func.body, list) else [func.body]
+        for s_ in body:
+            for n in ast.walk(s_):
+                if isinstance(n, ast.Name):
+                    used.add(n.id)
+        got = _FREE[id(func)] = (func, frozenset(used - own_names(func)))
+    return got[1]
+
+
+def is_func_value(v):
+    return isinstance(v, tuple) and len(v) in (2, 3) and v[0] == "func" and isinstance(v[1], FUNC_TYPES + (ast.Lambda,))
+
+
 def lexical_parent(func):
     """The function (or lambda) whose body defines ``func``, or None for methods / module-level functions."""
     n = getattr(func, "_parent", None)
@@ -1352,7 +1373,7 @@ class Interp:
         return self._dd(out)
 
     # ------------------------------------------------------------------ calls
-    def inline(self, func, argvals, st, caller, receiver=None, name=None, is_method=True):
+    def inline(self, func, argvals, st, caller, receiver=None, name=None, is_method=True, closure_env=()):
         """Execute ``func`` with params bound to abstract values; -> list of Result.
 
         argvals: dict param name -> abstract value (missing params -> TOP or
@@ -1381,6 +1402,18 @@ class Interp:
         shared = tuple(sorted(shared))
         caller_locals = frozenset((k, v) for k, v in st.items if _is_local(k) and not (shared and k.startswith(shared)))
         entry = State(frozenset((k, v) for k, v in st.items if not _is_local(k) or (shared and k.startswith(shared))), st.log)
+        # a closure whose defining frame has returned: its free variables come from the captured environment;
+        # ("ref", key) entries alias a list / dict that still lives in a caller's variable
+        env_locals = []
+        for name_, v_ in closure_env:
+            if any(name_ in own_names(e.func) for e in fr.enclosing):
+                continue
+            if isinstance(v_, tuple) and len(v_) == 2 and v_[0] == "ref":
+                env_locals.append((name_, st.get(v_[1], TOP), v_[1]))
+            else:
+                env_locals.append((name_, v_, None))
+        for name_, v_, _ in env_locals:
+            entry = entry.set(fr.local(name_), v_)
         key = (id(func), entry, tuple(sorted((k, repr(v)) for k, v in argvals.items())))
         if key in self.in_progress:
             return [Result(r.kind, r.value, State(r.state.items | caller_locals, r.state.log)) for r in self.summaries.get(key, [])]
@@ -1418,8 +1451,20 @@ class Interp:
             else:
                 outs = self.exec_block(func.body, [s0], fr)
             results = []
-            mutable_params = [p_ for p_ in [x.arg for x in allp] if isinstance(argvals.get(p_), tuple) and argvals[p_][:1] in (("kwdict",),)]
+            mutable_tags = (("kwdict",), ("tuple",)) if getattr(self.domain, "list_outparams", False) else (("kwdict",),)
+            mutable_params = [p_ for p_ in [x.arg for x in allp] if isinstance(argvals.get(p_), tuple) and argvals[p_][:1] in mutable_tags]
             for kind, payload, s2 in outs:
+                if kind == "return" and isinstance(payload, tuple) and len(payload) == 2 and payload[0] == "func" and isinstance(payload[1], FUNC_TYPES + (ast.Lambda,)) \
+                        and lexical_parent(payload[1]) is func:
+                    # a closure leaves its defining frame: it takes the values of its free variables along
+                    own = own_names(func)
+                    env = tuple(sorted((n_, s2.get(fr.local(n_))) for n_ in free_names(payload[1]) if n_ in own and s2.has(fr.local(n_))))
+                    if env:
+                        payload = ("func", payload[1], env)
+                # variables reached through ("ref", key) entries of the closure environment: hand changes back
+                for name_, v0, ref in env_locals:
+                    if ref is not None and s2.has(fr.local(name_)) and s2.get(fr.local(name_)) != v0:
+                        s2 = s2.set(ref, s2.get(fr.local(name_)))
                 s3 = s2.drop_prefix(fr.prefix)
                 # a dict handed in by the caller and changed in place: hand the final content back
                 for p_ in mutable_params:
@@ -1467,7 +1512,7 @@ class Interp:
             key = fr.local(func.id)
             if st.has(key):
                 v = st.get(key)
-                if isinstance(v, tuple) and len(v) == 2 and v[0] == "func" and isinstance(v[1], FUNC_TYPES):
+                if isinstance(v, tuple) and len(v) in (2, 3) and v[0] == "func" and isinstance(v[1], FUNC_TYPES + (ast.Lambda,)):
                     return v[1], fr.receiver, False
                 return None
             # nested def in an enclosing function, then module level
@@ -1487,7 +1532,7 @@ class Interp:
                     return f, None, False
         return None
 
-    def call_function(self, f, call, st, fr, receiver=None, bind_self=True):
+    def call_function(self, f, call, st, fr, receiver=None, bind_self=True, closure_env=()):
         """Evaluate the arguments of ``call`` and inline ``f`` with them bound to its parameters."""
         exprs = [a.value if isinstance(a, ast.Starred) else a for a in call.args] + [k.value for k in call.keywords]
         params = [p.arg for p in f.args.posonlyargs + f.args.args]
@@ -1541,8 +1586,12 @@ class Interp:
             for k in call.keywords:
                 if k.arg is not None and isinstance(k.value, ast.Name):
                     back[k.arg] = fr.local(k.value.id)
-            for rr in self.inline(f, argvals, r.state, fr, receiver=receiver, is_method=bind_self):
+            for rr in self.inline(f, argvals, r.state, fr, receiver=receiver, is_method=bind_self, closure_env=closure_env):
                 s2 = rr.state
+                if rr.kind == "val" and isinstance(rr.value, tuple) and len(rr.value) == 3 and rr.value[0] == "func" and back and getattr(self.domain, "list_outparams", False):
+                    # the closure captured a parameter that aliases one of our variables (a list to be filled, ...)
+                    env = tuple((n_, ("ref", back[n_]) if n_ in back and isinstance(v_, tuple) and v_[:1] in (("tuple",), ("kwdict",)) else v_) for n_, v_ in rr.value[2])
+                    rr = Result(rr.kind, ("func", rr.value[1], env), rr.state)
                 for p_, ckey in back.items():
                     if s2.has("outparam." + p_):
                         s2 = s2.set(ckey, s2.get("outparam." + p_))
@@ -1557,7 +1606,12 @@ class Interp:
         if hit is None:
             return None
         f, receiver, bind_self = hit
-        return self.call_function(f, call, st, fr, receiver=receiver, bind_self=bind_self)
+        env = ()
+        if isinstance(call.func, ast.Name) and st.has(fr.local(call.func.id)):
+            v = st.get(fr.local(call.func.id))
+            if isinstance(v, tuple) and len(v) == 3 and v[0] == "func":
+                env = v[2]
+        return self.call_function(f, call, st, fr, receiver=receiver, bind_self=bind_self, closure_env=env)
 
     def analyze(self, func, argvals, st, receiver=None, name=None, max_rounds=12):
         """Top-level entry: iterate until callee summaries are stable."""
